@@ -520,6 +520,13 @@ INCLUDED = {
          '<field name="d" writable="1"><type name="gint64" c:type="gint64"/></field></record>\n'
          '<record name="Handle" c:type="YHandle"><field name="e" writable="1"><type name="gint16" c:type="gint16"/></field></record>\n'
          '</namespace>\n</repository>\n',
+    # a namespace whose name begins with the name of ANOTHER included namespace (GstBase beside Gst) and that has a record of the
+    # same name: a reference to X.Item is not a reference to XB.Item, whichever is met first
+    'XB': '<?xml version="1.0"?>\n<repository version="1.2" xmlns="http://www.gtk.org/introspection/core/1.0" '
+          'xmlns:c="http://www.gtk.org/introspection/c/1.0" xmlns:glib="http://www.gtk.org/introspection/glib/1.0">\n'
+          '<namespace name="XB" version="1.0" shared-library="libxb.so" c:identifier-prefixes="XB" c:symbol-prefixes="xb">\n'
+          '<record name="Item" c:type="XBItem"><field name="z" writable="1"><type name="gint16" c:type="gint16"/></field></record>\n'
+          '</namespace>\n</repository>\n',
     # a namespace whose name begins with the name of the including namespace T (Gdk includes GdkPixbuf)
     'TX': '<?xml version="1.0"?>\n<repository version="1.2" xmlns="http://www.gtk.org/introspection/core/1.0" '
           'xmlns:c="http://www.gtk.org/introspection/c/1.0" xmlns:glib="http://www.gtk.org/introspection/glib/1.0">\n'
